@@ -6,6 +6,7 @@ import (
 	"os"
 	"path/filepath"
 	"runtime"
+	"strings"
 	"verifh/vsched"
 
 	"github.com/ethereum/go-ethereum/crypto"
@@ -38,4 +39,42 @@ func refVerify(pub glow.PublicKey, data []byte, sig glow.Signature) bool {
 		return false
 	}
 	return crypto.VerifySignature(comp, crypto.Keccak256(data), sig[:])
+}
+
+// processDeath classifies the stderr of a worker that died: if the runtime's report (unrecovered panic or fatal
+// error) names a function of the repository in the stack of the faulting goroutine, the repository killed the
+// process, and the returned signature says where; otherwise the death is the harness's own problem.
+func processDeath(dump string) (string, bool) {
+	i := strings.Index(dump, "fatal error: ")
+	if j := strings.Index(dump, "panic: "); j >= 0 && (i < 0 || j < i) {
+		i = j
+	}
+	if i < 0 {
+		return "", false
+	}
+	rest := dump[i:]
+	why := firstLine(rest)
+	// the faulting goroutine's stack is the first "goroutine N [" block; it ends at the next blank line
+	g := strings.Index(rest, "\ngoroutine ")
+	if g < 0 {
+		return "", false
+	}
+	block := rest[g+1:]
+	if e := strings.Index(block, "\n\n"); e >= 0 {
+		block = block[:e]
+	}
+	if !strings.Contains(block, "glowlabs-org/gca-backend/") {
+		return "", false
+	}
+	if len(why) > 80 {
+		why = why[:80]
+	}
+	return "process-dies/" + why + "/" + panicSite(block), true
+}
+
+func headStr(s string, n int) string {
+	if len(s) > n {
+		return s[:n]
+	}
+	return s
 }
